@@ -395,6 +395,10 @@ pub struct DriveInput<'a> {
     pub send_between: bool,
     /// the peer never closes the connection: after its last byte it stays silent
     pub silent: bool,
+    /// obtain every response through the `command()` / `command_list()` helpers (send + receive
+    /// in one call) instead of `receive()`; the helpers report a clean end of stream as an
+    /// unexpected-EOF error ("closed without a response to the command")
+    pub via_command: bool,
 }
 
 pub fn kind_of(name: &str) -> io::ErrorKind {
@@ -488,7 +492,23 @@ fn drive_blocking(
                 conn.send(mpd_protocol::Command::new("ping"))
             }));
         }
-        match catch_unwind(AssertUnwindSafe(|| conn.receive())) {
+        let nth = out.responses.len();
+        let step = catch_unwind(AssertUnwindSafe(|| {
+            if input.via_command {
+                if nth % 2 == 0 {
+                    conn.command(mpd_protocol::Command::new("ping")).map(Some)
+                } else {
+                    conn.command_list(
+                        mpd_protocol::CommandList::new(mpd_protocol::Command::new("ping"))
+                            .command(mpd_protocol::Command::new("status")),
+                    )
+                    .map(Some)
+                }
+            } else {
+                conn.receive()
+            }
+        }));
+        match step {
             Err(p) => {
                 out.terminal = panic_terminal(p);
                 handle.take_starved();
@@ -583,7 +603,28 @@ fn drive_async(
                 .command(mpd_protocol::Command::new("status"));
             let _ = catch_unwind(AssertUnwindSafe(|| block_on_budget(conn.send_list(list), 64)));
         }
-        match catch_unwind(AssertUnwindSafe(|| block_on_budget(conn.receive(), budget))) {
+        let nth = out.responses.len();
+        let step = catch_unwind(AssertUnwindSafe(|| {
+            if input.via_command {
+                let budget = budget + 64;
+                if nth % 2 == 1 {
+                    block_on_budget(conn.command(mpd_protocol::Command::new("ping")), budget)
+                        .map(|r| r.map(Some))
+                } else {
+                    block_on_budget(
+                        conn.command_list(
+                            mpd_protocol::CommandList::new(mpd_protocol::Command::new("ping"))
+                                .command(mpd_protocol::Command::new("status")),
+                        ),
+                        budget,
+                    )
+                    .map(|r| r.map(Some))
+                }
+            } else {
+                block_on_budget(conn.receive(), budget)
+            }
+        }));
+        match step {
             Err(p) => {
                 out.terminal = panic_terminal(p);
                 return;
